@@ -132,8 +132,15 @@ def make_pred(task):
                 inv = any(c11.model(l, l)[rule] not in (-1, None) for l in ref["lab"])
                 want[rule] = 1 if inv else 0
         elif task == "melody":
-            kw.pop("est_voicing", None)
-            kw.pop("ref_reward", None)
+            # a copy may also come with its confidences spelled out: the estimate's voicing equal to the reference's own binary voicing,
+            # the reference's reward all ones - each alone or both leave every optimum where it is
+            had_v, had_r = kw.pop("est_voicing", None) is not None, kw.pop("ref_reward", None) is not None
+            if had_v:
+                kw["est_voicing"] = [1.0 if f > 0 else 0.0 for f in ref["freq"]]
+            if had_r:
+                kw["ref_reward"] = [1.0] * len(ref["freq"])
+            if had_v != had_r:
+                ctx.event("one_confidence_keyword")
             from oracles import melody as omel
             try:
                 rv_, _, _, _ = omel.to_cent_voicing(ref["time"], ref["freq"], ref["time"], ref["freq"], hop=kw.get("hop"), kind=kw.get("kind", "linear"))
